@@ -581,9 +581,21 @@ func c56judge(cm *c56Msg, got *dns.Msg, ac c56AddrCombo) (vs []c56Verdict, ecsCl
 		}
 		return append(vs, c56Verdict{"forward:pack-error", "accepted message cannot be packed for forwarding: " + perr.Error()}), ecsClass
 	}
+	mode := 0
+	if ac.judged && ecsOK {
+		mode = 1
+	}
+	vs = append(vs, c56judgeWire(cm, wire, ac, mode)...)
+	return vs, ecsClass
+}
+
+// c56judgeWire checks bytes put on the wire for the client's message cm and client ac.
+// mode 0: no ECS clause (struct-level verdict already given / no address known); 1: ECS
+// clause after the struct-level check passed; 2: ECS clause on the wire alone.
+func c56judgeWire(cm *c56Msg, wire []byte, ac c56AddrCombo, mode int) (vs []c56Verdict) {
 	fm, trailing, e := c56parse(wire)
 	if e != "" || trailing != 0 {
-		return append(vs, c56Verdict{"forward:not-a-dns-message:" + e, fmt.Sprintf("forwarded bytes do not parse strictly (%s, %d trailing): %x", e, trailing, wire)}), ecsClass
+		return append(vs, c56Verdict{"forward:not-a-dns-message:" + e, fmt.Sprintf("forwarded bytes do not parse strictly (%s, %d trailing): %x", e, trailing, wire)})
 	}
 	if fm.id != cm.id || fm.flags != cm.flags {
 		vs = append(vs, c56Verdict{"msg:header-changed", fmt.Sprintf("client id/flags %04x/%04x forwarded %04x/%04x", cm.id, cm.flags, fm.id, fm.flags)})
@@ -642,8 +654,8 @@ func c56judge(cm *c56Msg, got *dns.Msg, ac c56AddrCombo) (vs []c56Verdict, ecsCl
 			vs = append(vs, c56Verdict{"opt:client-edns-lost", fmt.Sprintf("client OPT ttl=%08x options %v not present in forwarded %x", cOpts[0].ttl, want, wire)})
 		}
 	}
-	if ac.judged && ecsOK {
-		// the same on the wire
+	if mode != 0 {
+		// the ECS option on the wire
 		wantFam, wantPfx, wantAddr := 1, 32, []byte(ac.eff.ip.To4())
 		if ac.eff.family == 2 {
 			wantFam, wantPfx, wantAddr = 2, 128, []byte(ac.eff.ip.To16())
@@ -685,10 +697,26 @@ func c56judge(cm *c56Msg, got *dns.Msg, ac c56AddrCombo) (vs []c56Verdict, ecsCl
 			}
 		}
 		if !ok {
-			vs = append(vs, c56Verdict{"ecs:" + c56famName(ac.eff) + ":wire-mismatch", fmt.Sprintf("want family %d prefix %d addr %x on the wire, ECS options %v", wantFam, wantPfx, wantAddr, seen)})
+			kind := "wire-mismatch"
+			if mode == 2 { // wire only (no dns.Msg to look at): name the class like the struct-level check does
+				kind = "missing"
+				for _, fo := range fOpts {
+					all, _ := c56options(fo.rdata)
+					for _, o := range all {
+						if o.code == 8 && len(o.data) >= 4 {
+							if int(binary.BigEndian.Uint16(o.data)) == wantFam && int(o.data[2]) == wantPfx {
+								kind = "address-mismatch"
+							} else if kind != "address-mismatch" {
+								kind = fmt.Sprintf("family=%d/prefix=%d", binary.BigEndian.Uint16(o.data), o.data[2])
+							}
+						}
+					}
+				}
+			}
+			vs = append(vs, c56Verdict{"ecs:" + c56famName(ac.eff) + ":" + kind, fmt.Sprintf("want family %d prefix %d addr %x on the wire, ECS options %v", wantFam, wantPfx, wantAddr, seen)})
 		}
 	}
-	return vs, ecsClass
+	return vs
 }
 
 // ---------------------------------------------------------------------------------------
